@@ -76,6 +76,18 @@ fn mass_patterns(n: usize) -> Vec<MassPat> {
         if n >= 3 {
             v.push(band(2, 1, "banded (2,1)"));
         }
+        // unit diagonal, nothing above it, entries below it: everything an identity test that looks at the
+        // diagonal and one triangle would take for the identity
+        let mut ul = eye.clone();
+        for i in 1..n {
+            ul[i * n + i - 1] = 0.5;
+        }
+        v.push(MassPat { name: "unit lower bidiagonal".into(), m: ul, ml: 1, mu: 0, identity: false, singular: false });
+        let mut uu = eye.clone();
+        for i in 1..n {
+            uu[(i - 1) * n + i] = -0.5;
+        }
+        v.push(MassPat { name: "unit upper bidiagonal".into(), m: uu, ml: 0, mu: 1, identity: false, singular: false });
         let mut s = eye.clone();
         s[(n - 1) * n + n - 1] = 0.0;
         v.push(MassPat { name: "diag(1,..,1,0) index-1 DAE".into(), m: s, ml: 0, mu: 0, identity: false, singular: true });
@@ -247,6 +259,46 @@ pub fn run_check(replay: Option<Value>) -> i32 {
                         out.tag("storage-pair");
                     }
                     _ => viol!("outcome", format!("mass {:?} / Jacobian {:?}: run ended with {}", ms, js, r.outcome_name())),
+                }
+            }
+        }
+        // (1b) both sides of M y' = f multiplied by 2^-66 (1.4e-20, an equation written in nano-units): the same
+        // equation, and with a power of two the same arithmetic up to the exponent - bit for bit the same run
+        if let Some(bs) = &base {
+            let s66 = 2f64.powi(-66);
+            let pat_s = MassPat { m: job.pat.m.iter().map(|v| v * s66).collect(), identity: false, ..job.pat.clone() };
+            let massf_s = move |m: &mut Matrix| write_mass(&pat_s, n, m);
+            let (f0, j0) = (p.f.clone(), p.jac.clone().unwrap());
+            let p_s = Prob {
+                name: format!("{} (equation scaled by 2^-66)", p.name),
+                f: Arc::new(move |t, y, d| {
+                    f0(t, y, d);
+                    for v in d.iter_mut() {
+                        *v *= s66;
+                    }
+                }),
+                jac: Some(Arc::new(move |t, y| j0(t, y).iter().map(|v| v * s66).collect())),
+                ..p.clone()
+            };
+            let mut stor = vec![MatrixStorage::Full];
+            if n >= 2 {
+                stor.push(MatrixStorage::Banded { ml: job.pat.ml, mu: job.pat.mu });
+            }
+            for ms in stor {
+                let mut c = Cfg::new(Method::RADAU, 0.0, 1.5, &y0).tol(rtol, atol);
+                c.user_jac = true;
+                c.mass_storage = ms.clone();
+                let r = run_with(&p_s, &c, None, Some(&massf_s));
+                out.events += r.st.n_ode;
+                match r.sol() {
+                    Some(s) if s.status == Status::Success => {
+                        if !(bits_eq(&s.t, &bs.t) && s.y.iter().zip(&bs.y).all(|(u, v)| bits_eq(u, v))) {
+                            viol!("equation-scaling", format!("M y' = f with both sides multiplied by 2^-66 (mass {:?}) gives a different trajectory ({} vs {} samples)", ms, s.t.len(), bs.t.len()));
+                        }
+                        out.validated += 1;
+                        out.tag("equation-scaled");
+                    }
+                    _ => viol!("equation-scaling", format!("M y' = f with both sides multiplied by 2^-66 (mass {:?}): run ended with {}", ms, r.outcome_name())),
                 }
             }
         }
@@ -512,6 +564,51 @@ pub fn run_check(replay: Option<Value>) -> i32 {
         Some(out)
     });
     rep.absorb(pouts.into_iter().flatten().collect());
+
+    // a right-hand side with a one-sided domain, started on its boundary: a body released from rest with drag
+    // v^1.5 (not a number for v < 0).  The default (differenced) Jacobian must stay inside the domain the state is
+    // in, and the run must agree with the one that uses the analytic Jacobian
+    for m in [Method::RADAU, Method::BDF] {
+        for (ti, tol) in [1e-5, 1e-8].iter().enumerate() {
+            let key = format!("onesided:{}:{}", mname(m), ti);
+            if only.as_ref().map(|o| *o != key).unwrap_or(false) {
+                continue;
+            }
+            let p = Prob {
+                name: "released from rest, drag v^1.5".into(),
+                n: 2,
+                f: Arc::new(|_t, y, d| {
+                    d[0] = y[1];
+                    d[1] = 9.81 - 0.8 * y[1].powf(1.5);
+                }),
+                jac: Some(Arc::new(|_t, y| vec![0.0, 1.0, 0.0, -1.2 * y[1].max(0.0).sqrt()])),
+                flow: None,
+                y0: vec![0.0, 0.0],
+                linear_homogeneous: false,
+            };
+            let mut ca = Cfg::new(m, 0.0, 2.0, &p.y0).tol(*tol, tol * 1e-2);
+            ca.user_jac = true;
+            let mut cf = ca.clone();
+            cf.user_jac = false;
+            let (ra, rf) = (run_with(&p, &ca, None, None), run_with(&p, &cf, None, None));
+            rep.evaluations += 2;
+            rep.transitions += ra.st.n_ode + rf.st.n_ode;
+            let desc = json!({"key": key, "problem": p.name, "method": mname(m), "rtol": tol, "analytic": ra.outcome_name(), "differenced": rf.outcome_name()});
+            match (ra.sol(), rf.sol()) {
+                (Some(sa), Some(sf)) if sa.status == Status::Success && sf.status == Status::Success => {
+                    let d = sa.y.last().unwrap().iter().zip(sf.y.last().unwrap()).fold(0.0f64, |a, (u, v)| a.max((u - v).abs()));
+                    let ymax = sa.y.iter().flat_map(|y| y.iter()).fold(0.0f64, |a, b| a.max(b.abs()));
+                    let bound = 50.0 * (sa.naccpt.max(sf.naccpt).max(1) as f64) * (tol * 1e-2 + tol * ymax);
+                    if d > bound {
+                        rep.violations.push(Violation::new(&key, "jacobian-source", format!("{}: analytic and differenced Jacobian give end states {:e} apart (bound {:e})", mname(m), d, bound), desc).with("mass", "none").with("n", 2));
+                    }
+                    rep.validated += 1;
+                    *rep.tags.entry("one-sided-domain".into()).or_insert(0) += 1;
+                }
+                _ => rep.violations.push(Violation::new(&key, "jacobian-source", format!("{}: with the analytic Jacobian the run ends with {}, with the default differenced one with {}", mname(m), ra.outcome_name(), rf.outcome_name()), desc).with("mass", "none").with("n", 2)),
+            }
+        }
+    }
 
     // equations and unknowns listed in different orders: unknowns (z, [v,] u), equations (u' = -u, [v' = -2v,]
     // 0 = z - u^2).  Column 0 of E = fac*M - J is (0, .., 0, -1)^T: the only admissible pivot is in the last row.
